@@ -50,10 +50,17 @@ def _one(args):
     # variants are written against the *normalised* module text
     # (ast.unparse), so repository formatting does not matter
     src = _norm(ix, rel)
-    if src is None or src.count(old) != 1:
+    if src is not None and old.startswith('re:'):
+        # whole-file regular-expression rewrite (e.g. renaming a local everywhere)
+        import re
+        msrc, n = re.subn(old[3:], new, src)
+        if n == 0:
+            return (kind, name, 'stale', 'regex matches nothing in %s' % rel)
+    elif src is None or src.count(old) != 1:
         return (kind, name, 'stale', 'pattern occurs %s times in %s' % (
             0 if src is None else src.count(old), rel))
-    msrc = src.replace(old, new)
+    else:
+        msrc = src.replace(old, new)
     try:
         with warnings.catch_warnings():
             warnings.simplefilter('ignore')
